@@ -27,14 +27,15 @@ Definition layout_eqb (a b : ty) : bool := ty_eqb (TSchema (flat a)) (TSchema (f
    known_findings.d/C11.json; none is reachable through a Request builder).  The layout
    theorem is stated modulo this list; it is not consulted by any other checker. *)
 Definition known_layout_deviations : list string :=
-  [ "OffsetRequest_v4"; "OffsetRequest_v5";           (* current_leader_epoch is int32 in Kafka *)
-    "DescribeAclsRequest_v2"; "DescribeAclsResponse_v2" (* v2 is a flexible version in Kafka *) ].
+  [ "DescribeAclsRequest_v2"; "DescribeAclsResponse_v2" (* v2 is a flexible version in Kafka *) ].
 
 Definition is_known (n : string) : bool := existsb (String.eqb n) known_layout_deviations.
 
 (* the layouts found in the tree when the deviations were recorded (literal copies, for the
    witness examples in props/C11.v) *)
-Definition witness_OffsetRequest_v4 : ty :=
+(* OffsetRequest_v4 as it was before the fix "ListOffsets v4/v5 request encodes
+   current_leader_epoch as int32" (kept as a regression witness of the layout comparison) *)
+Definition witness_OffsetRequest_v4_before_fix : ty :=
   TSchema [TInt32; TInt8; TArray (TSchema [TString; TArray (TSchema [TInt32; TInt64; TInt64])])].
 Definition witness_DescribeAclsRequest_v2 : ty :=
   TSchema [TInt8; TString; TInt8; TString; TString; TInt8; TInt8].
